@@ -21,6 +21,7 @@ META = {
     "not_decided": "transitivity/totality for all values (NaN), that the result is an ordered permutation for every input",
     "assumptions": [],
 }
+META["explanation"] += " " + '(PR-sortperm) the container-level Sort members reorder only: they call no membership-changing operation and write no element directly.'
 META["explanation"] += " " + 'PR-sort additionally: on every path through the loop body the ranges recursed into or continued with include [start, pivot) and [pivot + 1, end) (linear forms of the range arguments), and every element access has start <= index < end (E-ZONE, under start <= end, which every recursive call re-establishes).'
 
 SU = "Qentem::StringUtils::"
@@ -332,4 +333,17 @@ def run(ctx):
     for r13 in C13.run(ctx):
         if r13.rid == "PR-rehash":
             rules.append(r13)
+    # ---------------- PR-sortperm: the container-level sorts keep every element
+    r = Rule("PR-sortperm", "the container-level Sort members reorder only: no element is dropped, disposed, moved out or overwritten", floor=3)
+    MEMBERSHIP = {"setSize", "Dispose", "Deallocate", "Move", "Initialize", "remove", "Remove", "RemoveIndex", "Resize", "resize", "Compress", "Clear", "Reset", "Drop", "Insert", "insert"}
+    for (cls, fam) in (("Qentem::HashTable", ()), ("Qentem::Array", ()), ("Qentem::Value", ())):
+        for f in m.functions:
+            if f.inst or f.cls != cls or f.name != "Sort" or not f.cfg:
+                continue
+            ctx.note_fn(f)
+            bad = [f.text(c)[:50] for c in astq.calls(f) if (f.call_simple_name(c) or "") in MEMBERSHIP]
+            writes = [f.text(x)[:50] for x in f.walk() if f.nodes[x]["k"] in ("BinaryOperator", "CompoundAssignOperator", "CXXOperatorCallExpr") and f.nodes[x].get("op") == "=" and
+                      f.nodes[f.strip((f.call_args(x) if f.nodes[x]["k"] == "CXXOperatorCallExpr" else f.nodes[x]["ch"])[0])]["k"] == "ArraySubscriptExpr"]
+            r.ob(f.sig, "reorders only", not bad and not writes, "membership-changing operations inside Sort: %s; direct element writes: %s" % (bad or "none", writes or "none"), "%s:%d" % (f.file.split("/Include/")[-1], f.line))
+    rules.append(r)
     return rules
